@@ -50,7 +50,7 @@ pub fn mk_transcript(desc: &Option<(Vec<u8>, Vec<Vec<u8>>)>) -> (Option<Strobe>,
 
 pub fn gen(seed: u64, thorough: bool, only: Option<u64>, out: &mut Out) {
   let groups: u64 = if thorough { 600 } else { 40 };
-  let ts: &[u32] = if thorough { &[0, 1, 2, 3, 4, 5, 8, 13, 16, 33, 64, 128] } else { &[0, 1, 2, 3, 5, 8] };
+  let ts: &[u32] = if thorough { &[0, 1, 2, 3, 4, 5, 8, 13, 16, 33, 64, 128, 256, 257] } else { &[0, 1, 2, 3, 5, 8] };
   for g in 0..groups {
     if let Some(o) = only {
       if o != g {
